@@ -910,8 +910,10 @@ class reactive_ops:
         >>> rx_result.rx.value
         '5 or below'
         """
-        xrefs = resolve_ref(x)
-        yrefs = resolve_ref(y)
+        # (also the references held by a container given as a branch:
+        # they are resolved when the branch is evaluated)
+        xrefs = resolve_ref(x, recursive=True)
+        yrefs = resolve_ref(y, recursive=True)
         if isinstance(self._reactive, rx):
             params = self._reactive._params
         else:
